@@ -377,10 +377,10 @@ def run(ctx):
         three step objects (first, second, merged) are applied to other documents; `merge` asked a second time for the same
         two objects gives a step that is held to the same statement"""
         for d_o in rng.sample(docs, min(len(docs), 2)):
-            if d_o is d:
+            if d_o is d or not gen.step_aligned(d_o, s1):
                 continue
             e1 = apply_doc(s1, d_o)
-            e2 = apply_doc(s2, e1) if e1 is not None else None
+            e2 = apply_doc(s2, e1) if e1 is not None and gen.step_aligned(e1, s2) else None
             if e2 is None:
                 continue
             ctx.count("merged_pair_on_another_document:" + type(s1).__name__)
